@@ -499,6 +499,9 @@ def run(ctx):
     version_literal_rule(ctx, w)
     if ctx.tier == "thorough":
         header_write_rule(ctx, w)
+        # query / body carrier structs of the API crates: an omitted field must be read back as the omitted value
+        from . import C18 as _C18
+        _C18.defaults_rule(ctx, w, "C16.defaults", {}, floor=1, only=lambda p_: "ruma_common::" not in p_.split(" for ", 1)[-1][:14])
     ctx.assumptions += ["serde_html_form / serde_json round-trip values of the carrier types; field-level serde symmetry is checked in C18.symmetry",
                         "select_path over arbitrary subsets of versions is not decided (only that it is the function used)"]
     ctx.samples += [{"endpoint": "federation membership::create_join_event::v2", "path_args": 2, "query": "RequestQuery", "body": "RequestBody"}]
